@@ -142,8 +142,9 @@ def combos(chk, rng):
                 metas.append({'op': op, 'mode': mode, 'f1_obj': o1, 'f2_obj': o2, 'd': d, 'mean_obj': (np.array(mean, dtype='float64') if (k % 4 == 1 or dt not in ('uint8', 'int16')) else np.array(mean, dtype=dt)) if mean else None, 'dtype': dt, 'rows': rows,
                               'label': f'{op} frame_1={l1} frame_2={"-" if o2 is None else i2} mode={mode} d={d} {dt}', 'precision': 'float64' if k % 5 == 0 else None})
     res = run_cases(chk, cases, 'CASES:combinations')
+    built = [make_pre(m) for m in metas]            # every preprocess object exists before any is used (objects of one session are independent of each other)
     for ci, (c, m, r) in enumerate(zip(cases, metas, res)):
-        pre = make_pre(m)
+        pre = built[ci]
         traces = np.array(m['rows'], dtype=m['dtype'])
         got = pre(traces)
         want = [[exact(x) for x in row] for row in r['rows']]
@@ -176,6 +177,9 @@ def combos(chk, rng):
             if not np.array_equal(alone[0], np.asarray(got)[1]) or not np.array_equal(other[1], np.asarray(got)[1]):
                 chk.violation(f'{m["op"]}:row r of the output depends only on row r of the input', dict(ctx, property='C18'), f'{m["label"]}: output row changes with the batch composition')
     chk.sample({'combination': metas[3]['label'], 'expected_row0_dyadic': res[3]['rows'][0][:6]})
+
+
+LONG = {}
 
 
 def run_cases(chk, cases, label):
@@ -233,7 +237,12 @@ def first_order(chk, rng):
         elif kind == 'center':
             want = np.array([[float(Fraction(x[0], x[1])) for x in row] for row in r['rows']])
             got = np.asarray(pp.center(traces))
-            got2 = np.asarray(pp.CenterOn()(traces))
+            # ONE long-lived object per kind serves every batch of the run (as a preprocess placed in a Container does): each batch is centred on ITS mean
+            got2 = np.asarray(LONG.setdefault('CenterOn', pp.CenterOn())(traces))
+            gotp = np.asarray(LONG.setdefault('CenteredProduct', scared.preprocesses.high_order.CenteredProduct(frame_1=[0], frame_2=[1]))(traces))
+            wantp = (want[:, 0] * want[:, 1]).reshape(-1, 1)
+            if gotp.shape != wantp.shape or not np.allclose(gotp, wantp, rtol=1e-5, atol=1e-5):
+                chk.violation('centered_product:centres every batch on its own mean', dict(ctx, property='C18', got=gotp.tolist(), expected=wantp.tolist()), f'CenteredProduct (batch mean) on {dt}, object reused across batches')
             if got.dtype.kind != 'f' or not np.allclose(got, want, rtol=1e-6, atol=1e-6) or not np.allclose(got2, want, rtol=1e-6, atol=1e-6):
                 chk.violation('center:subtracts the batch mean of every sample', dict(ctx, property='C18', got=got.tolist(), expected=want.tolist()), f'center on {dt}')
             n = len(rows)
